@@ -501,14 +501,30 @@ func execSess(op string) string {
 	// the driver timeout of `Et` scenarios is the only real timer; an environment fault (see runSess) re-runs
 	// the scenario with a longer one
 	timeouts := []time.Duration{80 * time.Millisecond, 250 * time.Millisecond, time.Second, 3 * time.Second, 8 * time.Second}
+	// An answer that ends in a driver timeout is only taken when the next larger driver timeout gives the same
+	// answer: a scripted `Et` (the node never answers) times out under every timer, a request that was merely slow on
+	// a starved machine does not (seen once in a thorough run under 20 concurrent builders: a request AFTER the
+	// scripted one took longer than the 80 ms timer and the scenario was reported as a violation).
+	prev := ""
 	for try := 0; ; try++ {
 		a, spurious := runSess(sc, timeouts[try])
-		if !spurious || try == len(timeouts)-1 {
+		last := try == len(timeouts)-1
+		if !spurious {
+			if !strings.Contains(a, "err=timeout") || a == prev || last {
+				return a
+			}
+			prev = a
+			atomic.AddInt64(&confirmReruns, 1)
+			continue
+		}
+		if last {
 			return a
 		}
 		atomic.AddInt64(&spuriousReruns, 1)
 	}
 }
+
+var confirmReruns int64
 
 // ---------- generation ----------
 
@@ -767,5 +783,5 @@ func sessionTier(r *vh.Rng, out *vh.Out, tier string) map[string]interface{} {
 	for i, j := range jobs {
 		out.Case(j.sc.String(), res[i], j.cls, true)
 	}
-	return map[string]interface{}{"session_scenarios": len(jobs), "spurious_timeout_reruns": atomic.LoadInt64(&spuriousReruns)}
+	return map[string]interface{}{"session_scenarios": len(jobs), "spurious_timeout_reruns": atomic.LoadInt64(&spuriousReruns), "timeout_answers_confirmed_with_a_longer_timer": atomic.LoadInt64(&confirmReruns)}
 }
